@@ -66,6 +66,8 @@ PROPS = {
             "Pep508.C20.wf_true", "Pep508.C20.wf_false", "Pep508.C20.wf_and", "Pep508.C20.wf_or", "Pep508.C20.wf_not",
             "Pep508.C20.apply_ranges_nonempty", "Pep508.C20.wf_covers", "Pep508.PartL_product", "Pep508.partitionFrom_coalesce",
             "Pep508.wf_node_map", "Pep508.wf_createNodeR",
+            "Pep508.C20.wf_restrict", "Pep508.C20.wf_simplify", "Pep508.C20.wf_complexify", "Pep508.C20.wf_range_atom",
+            "Pep508.C20.reach_wf", "Pep508.simplifyEdges_ne_nil", "Pep508.Part_complexifyEdges", "Pep508.Part_simplifyEdges",
         ],
         "suites": [{"name": "algebra", "args": ["C20"]}],
         "rule": "a pool of markers is built through the real API along random construction paths (typed expressions, and/or/negate, simplify_extras, "
@@ -109,6 +111,19 @@ PROPS = {
                 "region environments; non-trivial = distinct marker dumps",
         "trusted": ["exactness on independent variables is checked by the oracle only (witness search), not yet a theorem"], "assumptions": [],
     },
+    "C12": {
+        "lean_targets": ["Pep508.Theorems.C12"],
+        "theorems": ["Pep508.C12.complexify_eval", "Pep508.C12.simplify_eval_inside", "Pep508.C12.complexify_wf", "Pep508.C12.simplify_wf",
+                     "Pep508.C12.complexify_eq_and", "Pep508.C12.complexify_simplify", "Pep508.C12.complexify_congr",
+                     "Pep508.C12.eval_pyRangeMarker", "Pep508.C12.wf_pyRangeMarker", "Pep508.simplifyEdges_ne_nil", "Pep508.filter_part"],
+        "suites": [{"name": "algebra", "args": ["C12"]}],
+        "rule": "a pool of markers is built through the real API along random construction paths (typed expressions, and/or/negate, simplify_extras, "
+                "simplify/complexify_python_versions, plus shapes generated on purpose); for random (marker, lower, upper) with bounds from {unbounded, included, excluded} x a literal pool with trailing zeros and pre/post/dev/epoch decorations "
+                "(empty and inverted ranges included): complexify and simplify are applied one step from the literal dump and compared with the model; complexify(m,R) == "
+                "m and (pfv in R) as markers; complexify(simplify) / simplify(complexify) identities for non-empty R; agreement on R => equal simplifications (a second marker "
+                "that agrees on R is synthesised); meaning inside/outside R on region environments; every call under catch_unwind; non-trivial = distinct op case",
+        "trusted": [], "assumptions": [],
+    },
 }
 
 NOT_APPLICABLE = {}
@@ -116,6 +131,14 @@ NOT_APPLICABLE = {}
 _NOTE = ("Trusted: Lean 4.33 kernel (+ propext, Classical.choice, Quot.sound, audited per theorem); the hand-written model is tied to the code by "
          "differential correspondence on generated cases (sampled, not proved); ")
 MANIFEST_TEXT = {
+    "C12": {
+        "technique": "Lean 4 theorems: complexify = AND with the range marker (meaning for all bounds; identity of diagrams via the canonicity theorem), simplify agrees inside R, "
+                     "both preserve well-formedness and cannot hit their unwrap/assert sites + one-step correspondence and identity oracles",
+        "text": "complexify_eval / simplify_eval_inside for every well-formed marker and every pair of bounds; complexify_eq_and, complexify_simplify, complexify_congr as "
+                "identities of diagrams (canonicity, dense orders); wf preservation and non-emptiness of the kept edge run. simplify(complexify(m,R),R) == simplify(m,R) and "
+                "'agree on R => equal simplifications' are decided by the oracle on the implementation (not yet theorems: they need the behaviour of simplify outside R).",
+        "note": _NOTE + "the two remaining equalities are partial (oracle only); empty R is read as in DESIGN §7 C12.",
+    },
     "C04": {
         "technique": "Lean 4 theorems: is_disjoint is sound for every environment, symmetric, and equals (and == FALSE) (fuel induction mirroring the recursion) + verdict correspondence",
         "text": "isDisjointF_sound / _comm / _iff_andF over arbitrary linear orders; is_true/is_false soundness is definitional on the kind() view; tied to the code by "
@@ -137,10 +160,11 @@ MANIFEST_TEXT = {
     "C20": {
         "technique": "Lean 4 theorems: the executable C20 predicate Tree.wf is preserved by and/or/not (product of partitions is a partition, coalescing restores "
                      "adjacent-distinct, create_node reduction, rank invariant) + the same predicate evaluated on implementation dumps + one-step correspondence",
-        "text": "wf_andF / wf_and / wf_or / wf_not with the partition lemmas (PartL_product, partitionFrom_coalesce, wf_createNodeR, wf_node_map) proved for all "
-                "diagrams over arbitrary linear orders; restrict / simplify / complexify / expression preservation: see evidence.theorems for what is proved at this "
-                "commit, the rest rests on the driver evaluating Tree.wf on every implementation dump and on the Rust oracle written from the property text.",
-        "note": _NOTE + "preservation theorems for the unary operations are added as they are proved (evidence lists the exact set).",
+        "text": "reach_wf: every diagram reachable from TRUE/FALSE/range atoms/boolean atoms through and, or, not, restrict, simplify_python_versions and "
+                "complexify_python_versions (all bounds, all restrictions) satisfies Tree.wf, over arbitrary linear orders; key lemmas: the product of two partitions is a "
+                "partition, coalescing restores adjacent-distinct children, the kept run of simplify/complexify is non-empty and contiguous (the Rust unwrap/assert sites). "
+                "The same predicate is evaluated by the driver on every implementation dump, and a Rust oracle written from the property text walks kind().",
+        "note": _NOTE + "that the range set of every *expression* is normalised (Ranges.Norm) is proved in the C01/C10 development; NodeId = structure is C14.",
     },
     "C09": {
         "technique": "Lean 4 theorems over a byte-level model of both name scanners + bounded-exhaustive differential correspondence",
